@@ -331,7 +331,9 @@ def run(tier, seed, t0):
         # (4) the container codec
         corpus = [(cid, c) for cid, c in gen.gen_structured(seed, tier) if SO.fits_codec(c)]
         if tier == 'quick':
-            corpus = [x for x in corpus if x[0].startswith(('h', 'b', 'r'))][:6000] + corpus[::40]
+            first = [x for x in corpus if x[0].startswith(('h', 'b', 'r'))][:6000]
+            taken = {cid for cid, _ in first}
+            corpus = first + [x for x in corpus[::40] if x[0] not in taken]
         corpus += [('T%d' % tid, c) for tid, c in cont.items()]
         elines = [case_line(cid, 'cont-enc', '-', '-', O.container_sexp(c)) for cid, c in corpus]
         ei = run_cases(exe, elines)
